@@ -321,6 +321,7 @@ var integer64 = []*instructionType{
 		opcode:       opcodeShiftImm(false, 6, 0b001, 0b0010011),
 		inputRegCnt:  1,
 		hasOutputReg: true,
+		immediate:    immTypeShamt,
 		effects: func(i instruction) []expr.Effect {
 			val := regImmShift(binOpFunc(expr.Lsh), i, 6, width64)
 			return []expr.Effect{regStore(val, i, width64)}
@@ -330,6 +331,7 @@ var integer64 = []*instructionType{
 		opcode:       opcodeShiftImm(false, 6, 0b101, 0b0010011),
 		inputRegCnt:  1,
 		hasOutputReg: true,
+		immediate:    immTypeShamt,
 		effects: func(i instruction) []expr.Effect {
 			val := regImmShift(binOpFunc(expr.Rsh), i, 6, width64)
 			return []expr.Effect{regStore(val, i, width64)}
@@ -339,6 +341,7 @@ var integer64 = []*instructionType{
 		opcode:       opcodeShiftImm(true, 6, 0b101, 0b0010011),
 		inputRegCnt:  1,
 		hasOutputReg: true,
+		immediate:    immTypeShamt,
 		effects: func(i instruction) []expr.Effect {
 			val := regImmShift(exprtools.RshA, i, 6, width64)
 			return []expr.Effect{regStore(val, i, width64)}
@@ -544,6 +547,7 @@ var integer64 = []*instructionType{
 		opcode:       opcode10(0b101, 0b1110011),
 		inputRegCnt:  0,
 		hasOutputReg: true,
+		uimm:         true,
 		immediate:    immTypeI,
 		instrType:    model.TypeCPUStateChange,
 		effects: func(i instruction) []expr.Effect {
@@ -558,6 +562,7 @@ var integer64 = []*instructionType{
 		opcode:       opcode10(0b110, 0b1110011),
 		inputRegCnt:  0,
 		hasOutputReg: true,
+		uimm:         true,
 		immediate:    immTypeI,
 		instrType:    model.TypeCPUStateChange,
 		effects: func(i instruction) []expr.Effect {
@@ -574,6 +579,7 @@ var integer64 = []*instructionType{
 		opcode:       opcode10(0b111, 0b1110011),
 		inputRegCnt:  0,
 		hasOutputReg: true,
+		uimm:         true,
 		immediate:    immTypeI,
 		instrType:    model.TypeCPUStateChange,
 		effects: func(i instruction) []expr.Effect {
@@ -604,6 +610,7 @@ var integer64 = []*instructionType{
 		opcode:       opcodeShiftImm(false, 5, 0b001, 0b0011011),
 		inputRegCnt:  1,
 		hasOutputReg: true,
+		immediate:    immTypeShamt,
 		effects: func(i instruction) []expr.Effect {
 			val := sext32To64(regImmShift(binOpFunc(expr.Lsh), i, 5, width32))
 			return []expr.Effect{regStore(val, i, width64)}
@@ -613,6 +620,7 @@ var integer64 = []*instructionType{
 		opcode:       opcodeShiftImm(false, 5, 0b101, 0b0011011),
 		inputRegCnt:  1,
 		hasOutputReg: true,
+		immediate:    immTypeShamt,
 		effects: func(i instruction) []expr.Effect {
 			val := sext32To64(regImmShift(binOpFunc(expr.Rsh), i, 5, width32))
 			return []expr.Effect{regStore(val, i, width64)}
@@ -622,6 +630,7 @@ var integer64 = []*instructionType{
 		opcode:       opcodeShiftImm(true, 5, 0b101, 0b0011011),
 		inputRegCnt:  1,
 		hasOutputReg: true,
+		immediate:    immTypeShamt,
 		effects: func(i instruction) []expr.Effect {
 			val := sext32To64(regImmShift(exprtools.RshA, i, 5, width32))
 			return []expr.Effect{regStore(val, i, width64)}
